@@ -428,13 +428,19 @@ def g_light(t):
     from commonroad.scenario.traffic_light import (TrafficLight, TrafficLightCycle, TrafficLightCycleElement,
                                                    TrafficLightDirection, TrafficLightState)
     els = [TrafficLightCycleElement(TrafficLightState[c["c"]], c["d"]) for c in t["cyc"]]
-    cyc = TrafficLightCycle(els, time_offset=t["off"]) if t["off"] else TrafficLightCycle(els)
     kw = {}
     if t["dir"] != "ALL":
         kw["direction"] = TrafficLightDirection[t["dir"]]
-    if not t["act"]:
-        kw["active"] = False
-    return TrafficLight(t["id"], g_pos(t["pos"]), cyc, **kw)
+    if t["g"]["cycNone"]:
+        light = TrafficLight(t["id"], g_pos(t["pos"]), **kw)             # default-argument light: no cycle at all
+    else:
+        cyc = TrafficLightCycle(els, time_offset=t["off"]) if t["off"] else TrafficLightCycle(els)
+        if not t["act"] and els:
+            kw["active"] = False
+        light = TrafficLight(t["id"], g_pos(t["pos"]), cyc, **kw)
+    if not els:                                  # the constructor switches a light without cycle elements off:
+        light.active = bool(t["act"])            # the flag is set through the public setter
+    return light
 
 
 def g_intersection(x):
@@ -763,11 +769,12 @@ def a_light(L, t):
     K, Y = "trafficLight", str(t.traffic_light_id)
     cyc = t.traffic_light_cycle
     els = [] if cyc is None or cyc.cycle_elements is None else cyc.cycle_elements
+    L.lf(K, Y, "cycle.isNone", _is_none(cyc))           # no cycle == empty cycle with offset 0 (Codec!NoneFlags)
     L.lf(K, Y, "cycle.n", str(len(els)))
     for i, c in enumerate(els, 1):
         L.lf(K, "%s/c%d" % (Y, i), "cycle.color", c.state.name)
         L.lf(K, "%s/c%d" % (Y, i), "cycle.duration", _int(c.duration))
-    L.lf(K, Y, "timeOffset", "None" if cyc is None or cyc.time_offset is None else _int(cyc.time_offset))
+    L.lf(K, Y, "timeOffset", "0" if cyc is None else ("None" if cyc.time_offset is None else _int(cyc.time_offset)))
     a_pos(L, K, Y, t.position)
     L.lf(K, Y, "direction", "None" if t.direction is None else t.direction.name)
     L.lf(K, Y, "active", "None" if t.active is None else str(int(bool(t.active))))
@@ -963,7 +970,7 @@ def apply_edit(sc, pps, desc, edited, edit):
     describes: objects whose id is new are built and added, objects whose id vanished are removed, a changed traffic light
     offset is set; "translate" moves the lanelet network.  Trace_Codec checks alpha(edited objects) = Leaves(EditOf)."""
     import numpy as np
-    if edit == "none":
+    if edit in ("none", "retry"):
         return
     if edit == "translate":
         sc.lanelet_network.translate_rotate(np.array(TRANSLATION), 0.0)
@@ -1032,25 +1039,40 @@ def _roundtrip(desc, d, fmt, reuse=None, edited=None):
         header = lambda: _WriterHeader(sc, wkw) if wkw else None
         new_writer = lambda: CommonRoadFileWriter(sc, pps, decimal_precision=d, file_format=ff, **wkw)
         reader = None
+
+        def early(kind, ex):
+            """a write / read that raises BEFORE the edit: the event still describes the edited objects"""
+            if reuse:
+                apply_edit(sc, pps, desc, edited[0], reuse[0]["edit"])
+            res["orig"] = alpha(sc, pps, header_from=header())
+            res["exc"], res["why"] = kind, _where(ex)
+            return res
         if route == "twin":                               # another scenario, another writer object, same process
             sct, ppst, wkwt = gamma(near_twin(desc))
             try:
                 CommonRoadFileWriter(sct, ppst, decimal_precision=d, file_format=ff, **wkwt).write_to_file(
                     path1, OverwriteExistingFile.ALWAYS)
             except Exception as ex:
-                res["orig"] = alpha(sc, pps, header_from=header())
-                res["exc"], res["why"] = "write", _where(ex)
-                return res
+                return early("write", ex)
+        retry = bool(reuse) and reuse[0]["edit"] == "retry"
+        if retry:                                         # write#1 goes into a directory that does not exist yet
+            missing = os.path.join(_tmpdir(), "not_yet_there")
+            shutil.rmtree(missing, ignore_errors=True)
+            path = os.path.join(missing, "case" + ext)
         try:
             writer = new_writer()
-            if route == "writer":
+            if retry:
+                try:
+                    writer.write_to_file(path, OverwriteExistingFile.ALWAYS)
+                except Exception:
+                    pass                                  # expected (any exception class); the retry below must be clean
+                os.makedirs(missing, exist_ok=True)
+            elif route == "writer":
                 writer.write_to_file(path1, OverwriteExistingFile.ALWAYS)
             elif route == "reader":                       # write#1 goes to the path the reader object is bound to
                 writer.write_to_file(path, OverwriteExistingFile.ALWAYS)
         except Exception as ex:
-            res["orig"] = alpha(sc, pps, header_from=header())
-            res["exc"], res["why"] = "write", _where(ex)
-            return res
+            return early("write", ex)
         if route == "reader":
             try:
                 reader = CommonRoadFileReader(path, file_format=ff)
@@ -1059,9 +1081,7 @@ def _roundtrip(desc, d, fmt, reuse=None, edited=None):
                 else:
                     reader.open_lanelet_network()
             except Exception as ex:
-                res["orig"] = alpha(sc, pps, header_from=header())
-                res["exc"], res["why"] = "read", _where(ex)
-                return res
+                return early("read", ex)
             writer = new_writer()                         # the rewrite is done by a fresh writer: only the READER is reused
         if reuse:
             apply_edit(sc, pps, desc, edited[0], reuse[0]["edit"])
@@ -1089,6 +1109,7 @@ def _roundtrip(desc, d, fmt, reuse=None, edited=None):
         for p_ in (path, path1):
             if os.path.exists(p_):
                 os.remove(p_)
+        shutil.rmtree(os.path.join(_tmpdir(), "not_yet_there"), ignore_errors=True)
 
 
 def roundtrip_event(case, fmt):
